@@ -1,0 +1,9 @@
+//go:build verif
+
+package reader
+
+// Contracts for gocv (comment-only; see /verif/DESIGN.md).  No executable code.
+
+//@ func (*Reader) PageCount results (n, err)
+//@   property C10, C02
+//@   ensures nonneg: !err ==> n >= 0
